@@ -267,7 +267,9 @@ pub fn levelv(rng: &mut Rng, n: usize) -> PriceLevel {
         let q = if rng.chance(1, 8) { 1u64 << 58 } else { rng.below(1000) };
         let h = if kind.layered() { rng.below(1000) } else { 0 };
         let id = model::oid(1 + i as u64 * 3 + rng.below(3));
-        l.add_order(model::mk(kind, id, price, q, h, sidev(rng), if rng.chance(1, 3) { rng.below(5) } else { u64v(rng) }, tifv(rng), &p));
+        // an order may carry a price other than the level's (add_order does not object)
+        let oprice = if rng.chance(1, 3) { u64v(rng) } else { price };
+        l.add_order(model::mk(kind, id, oprice, q, h, sidev(rng), if rng.chance(1, 3) { rng.below(5) } else { u64v(rng) }, tifv(rng), &p));
     }
     l
 }
